@@ -176,7 +176,11 @@ func (e *Engine) Discharge(results []*FuncResult, so SolveOpts) {
 		if len(fr.Obls) == 0 {
 			continue
 		}
-		script := e.BuildScript(fr, so.TimeoutMS)
+		incT := so.TimeoutMS
+		if incT > 3000 {
+			incT = 3000 // failures are retried standalone, in parallel, with the full timeout
+		}
+		script := e.BuildScript(fr, incT)
 		f := filepath.Join(so.OutDir, sanitize(fr.Key)+".smt2")
 		os.WriteFile(f, []byte(script), 0o644)
 		files[fr] = f
@@ -195,7 +199,11 @@ func (e *Engine) Discharge(results []*FuncResult, so SolveOpts) {
 			if hard > 20*time.Minute {
 				hard = 20 * time.Minute
 			}
-			out, secs := runSolver(solvers[0], f, so.TimeoutMS, hard)
+			incT := so.TimeoutMS
+			if incT > 3000 {
+				incT = 3000
+			}
+			out, secs := runSolver(solvers[0], f, incT, hard)
 			st := parseIncremental(out)
 			per := secs / float64(len(fr.Obls))
 			for _, o := range fr.Obls {
